@@ -403,7 +403,7 @@ type runResult struct {
 	matched       bool      // the implementation selected a clause result for at least one call
 	verdicts      []verdict // one per call (kind "" = conforms); empty if the configuration panicked
 	calls         int
-	methodEvalOdd int // Eval of a method stub that differs from the reference (recorded, not judged)
+	evalOdd int // Eval of a method/variadic stub that differs from the reference (recorded, not judged)
 }
 
 type callT struct {
@@ -448,20 +448,12 @@ func (s *sigSpec) run(cfg *Config, calls []callT) (rr runResult) {
 			if k, m := judge(cfg, ct.args, oc); k != "" {
 				rr.verdicts[ci] = verdict{kind: k, via: "call", msg: m, culprit: culprit(cfg, ct.args, oc)}
 			} else if k, m := judge(cfg, ct.args, oe); k != "" {
-				if s.method {
-					// the statement does not say whether Eval of a method stub takes the receiver:
-					// either convention is accepted
-					or := observe(func() interface{} {
-						r := w.Eval(append([]interface{}{s.recvValue(ct.recv)}, args...)...)
-						if len(r) != 1 {
-							return fmt.Sprintf("%d results", len(r))
-						}
-						return r[0]
-					})
-					rr.ops++
-					if k2, _ := judge(cfg, ct.args, or); k2 == "" {
-						continue
-					}
+				if s.method || s.variadic() {
+					// The statement speaks of calls. How When.Eval is to be given a receiver or a
+					// variadic tail is not stated anywhere, so a deviating Eval is recorded, not judged
+					// (on the pinned tree Eval of method and variadic stubs never reaches the clauses).
+					rr.evalOdd++
+					continue
 				}
 				rr.verdicts[ci] = verdict{kind: k, via: "eval", msg: m, culprit: culprit(cfg, ct.args, oe)}
 			}
@@ -1063,7 +1055,8 @@ func Run(c *vk.Ctx) {
 						continue
 					}
 					nPairs += int64(rr.calls)
-					c.Res.Evaluations += int64(2 * rr.calls)
+					c.Res.Evaluations += int64(2*rr.calls - rr.evalOdd)
+					c.Res.Unjudged += int64(rr.evalOdd)
 					for ci := range rr.verdicts {
 						if rr.verdicts[ci].kind != "" {
 							ct := calls[ci]
